@@ -162,6 +162,8 @@ def valueToCst : AVal → Expr
   | .enum cls member => .attr (.name cls) member
   | .list xs => .list (valuesToCst xs)
   | .tuple xs => .tuple (valuesToCst xs) (xs.length == 1)
+  -- the code emits the members stably sorted by their rendered source text; `xs` lists them in that
+  -- emission order (an input: `Props/C20.lean` `C20_set_any_order` covers every permutation)
   | .set xs => if xs.isEmpty then .call "set" [] else .set (valuesToCst xs)
   | .dict kvs => .dict (pairsToCst kvs)
   -- the fallback `cst.SimpleString(repr(value))`: the repr of an arbitrary object is not a string
